@@ -32,6 +32,12 @@ pub fn all() -> Vec<History> {
     v.push(("ring_tail_shared", vec![new(0), new(1), new(2), set(0, 0, 1), set(1, 0, 0), set(1, 1, 2), clone_r(2, 3), drop_r(0), drop_r(1), drop_r(2), Act::CollectQuiet, Act::Query, drop_r(3)]));
     // ring pinned through hidden slot of a live object, then unpinned
     v.push(("hidden_pin", vec![new(0), new(1), new(2), set(0, 0, 1), set(1, 0, 0), seth(2, 0), drop_r(0), drop_r(1), Act::CollectQuiet, drop_r(2), Act::CollectQuiet]));
+    // ring closed through a ManuallyDrop slot (traced, not released by its owner): reclaimed by the collector, boxes freed
+    v.push(("ring_through_manuallydrop_slot", vec![new(0), new(1), set(0, 0, 1), Act::Clone { src: Src::R(0), dst: Dst::Slot(Own::R(1), false, NT as u8) }, drop_r(0), drop_r(1), Act::CollectQuiet, Act::Query]));
+    // acyclic tail hanging off a ring through a ManuallyDrop slot
+    v.push(("tail_through_manuallydrop_slot", vec![new(0), set(0, 0, 0), new(1), Act::Take { src: Src::R(1), dst: Dst::Slot(Own::R(0), false, NT as u8) }, drop_r(0), Act::CollectQuiet, Act::Query]));
+    // owner released by reference counting while its ManuallyDrop slot holds a Cc: that Cc is leaked, the target pinned
+    v.push(("manuallydrop_slot_leaks_on_rc_drop", vec![new(0), new(1), Act::Clone { src: Src::R(1), dst: Dst::Slot(Own::R(0), false, NT as u8) }, drop_r(0), Act::Query, drop_r(1), Act::CollectQuiet, Act::Query]));
     // hidden self cycle: legal leak
     v.push(("hidden_self_cycle", vec![new(0), seth(0, 0), drop_r(0), Act::CollectQuiet]));
     // garbage pinned through hidden slot of garbage
